@@ -2,11 +2,10 @@
 Executable model of the BAM record codec of biogo/hts AS IT IS (core Lean only):
 
 * `encodeRecord`  mirrors `bam.(*Writer).Write` (bam/writer.go:76-123) byte for byte, including its two
-  error returns and the two places where it can panic (`a.Type()` of an aux shorter than 3 bytes,
-  `consume[ct]` in `Record.End` for CIGAR op codes 11..15);
+  error returns and the place where it can panic (`a.Type()` of an aux shorter than 3 bytes);
 * `decodeBody omit` mirrors `bam.(*Reader).Read` after the length prefix (bam/reader.go:120-193) on the
-  light-weight `buffer` type (bam/reader.go:379-460: sticky `err`, zero values once it is set, and the
-  fact that `Read` never looks at that `err`), and `parseAux` (bam/reader.go:313-373);
+  light-weight `buffer` type (sticky `err`, zero values once it is set, `Read` returning that `err` at its
+  `done:` label), and `parseAux`;
 * `readRecord` mirrors `newBuffer` (the length prefix, `io.ReadFull` semantics) and `readAll` iterates it.
 
 `encoding/binary.LittleEndian` is trusted and modelled by its arithmetic meaning (`putU32`/`getU32`).
@@ -22,20 +21,20 @@ panics, `hang*` is a non-terminating loop. -/
 inductive Fault where
   | errNameLen       -- Writer.Write: "bam: name absent or too long"
   | errQualLen       -- Writer.Write: "bam: sequence/quality length mismatch"
-  | errUnexpectedEOF -- io.ReadFull: fewer bytes than asked for (but at least one)
+  | errUnexpectedEOF -- io.ReadFull: fewer bytes than asked for; Read: the record buffer ran out (`b.err`)
   | errBlockSize     -- newBuffer: "bam: invalid record: invalid block size" (negative)
   | errReadNameLen   -- Read: "bam: invalid read name length"
   | errSeqLen        -- Read: "bam: invalid sequence length"
   | errRefRange      -- Read: "bam: reference id out of range"
   | errMateRefRange  -- Read: "bam: mate reference id out of range"
+  | errAuxTruncated  -- parseAux: "bam: truncated aux data" (fixed-width value cut short)
   | errAuxNoZero     -- parseAux: "bam: invalid zero terminated data: no zero"
+  | errAuxZeroInTag  -- parseAux: "bam: invalid zero terminated data: zero in tag"
+  | errAuxArrayHdr   -- parseAux: "bam: truncated aux array header"
+  | errAuxArrayElem  -- parseAux: "bam: unrecognised array element type"
   | errAuxArrayLen   -- parseAux: "bam: invalid array length for aux data"
   | errAuxType       -- parseAux: "bam: unrecognised optional field type"
   | panicAuxType     -- buildAux: a.Type() = a[2] with len(a) < 3
-  | panicConsume     -- Record.End: consume[ct] with ct ≥ 11 (len(consume) = 11)
-  | panicAuxSlice    -- parseAux: aux[i:i+j:i+j] beyond the data for a fixed-width type
-  | panicAuxArray    -- parseAux: 'B' with fewer than 8 bytes left (aux[i+4:i+8] / aux[i+3]); see note at parseAuxFuel
-  | hangAuxArray     -- parseAux: 'B' entry of computed size 0: `i += 0` for ever
   | fuel             -- model artefact, proved unreachable (Lemmas.BamStream)
   deriving DecidableEq, Repr
 
@@ -98,19 +97,19 @@ def consumeRef : List Int := [1, 0, 1, 1, 0, 0, 0, 1, 1, -1, 0]
 def unmapped (r : Record) : Bool := r.flags.toNat / 4 % 2 == 1
 def mateUnmapped (r : Record) : Bool := r.flags.toNat / 8 % 2 == 1
 
+/-- `CigarOpType.Consumes().Reference`: the table for op codes 0..10, the zero `Consume` for 11..15 -/
+def consumeRefOf (t : Nat) : Int := consumeRef.getD t 0
+
 /-- the loop of `Record.End` -/
-def endLoop : List (BitVec 32) → Int → Int → Except Fault Int
-  | [], _, e => .ok e
+def endLoop : List (BitVec 32) → Int → Int → Int
+  | [], _, e => e
   | c :: cs, pos, e =>
-    match consumeRef[cigarType c]? with
-    | none => .error .panicConsume
-    | some k =>
-      let pos := pos + (cigarLen c : Int) * k
-      endLoop cs pos (if e < pos then pos else e)
+    let pos := pos + (cigarLen c : Int) * consumeRefOf (cigarType c)
+    endLoop cs pos (if e < pos then pos else e)
 
 /-- `Record.End` -/
-def recordEnd (r : Record) : Except Fault Int :=
-  if unmapped r || r.cigar.isEmpty then .ok (r.pos + 1) else endLoop r.cigar r.pos r.pos
+def recordEnd (r : Record) : Int :=
+  if unmapped r || r.cigar.isEmpty then r.pos + 1 else endLoop r.cigar r.pos r.pos
 
 /-- `internal.BinFor` (same text as the regenerated `Hts.Gen.Index.binFor`) -/
 def binFor (beg : Int) (end_ : Int) : BitVec 32 :=
@@ -129,10 +128,7 @@ def binFor (beg : Int) (end_ : Int) : BitVec 32 :=
     (0#32)
 
 /-- `Record.Bin` -/
-def recordBin (r : Record) : Except Fault Nat :=
-  match recordEnd r with
-  | .error f => .error f
-  | .ok e => .ok (binFor r.pos e).toNat
+def recordBin (r : Record) : Nat := (binFor r.pos (recordEnd r)).toNat
 
 /-! ### Writer -/
 
@@ -185,10 +181,7 @@ def encodeRecord (r : Record) : Except Fault (List Byte) :=
   else if (match r.qual with | some q => q.length != r.seqLen | none => false) then .error .errQualLen
   else match buildAux r.aux with
     | .error f => .error f
-    | .ok tags =>
-      match recordBin r with
-      | .error f => .error f
-      | .ok bin => .ok (encodeWith bin tags r)
+    | .ok tags => .ok (encodeWith (recordBin r) tags r)
 
 /-! ### Reader: the `buffer` type -/
 
@@ -253,13 +246,12 @@ def indexZero : List Byte → Option Nat
   | [] => none
   | x :: xs => if x == 0#8 then some 0 else (indexZero xs).map (· + 1)
 
-/-- The loop of `parseAux`; `rest` is `aux[i:]`, `acc` the fields found so far in reverse order.
+/-- the element types `parseAux` accepts for a `B` array: c C s S i I f -/
+def isElemType (t : Byte) : Bool :=
+  t == 99#8 || t == 67#8 || t == 115#8 || t == 83#8 || t == 105#8 || t == 73#8 || t == 102#8
 
-Note on `panicAuxArray`: for a `B` entry Go evaluates `aux[i+4:i+8]` (checked against the *capacity*) and
-then `aux[i+3]` (checked against the length). With 3 bytes left this always panics; with 4..7 bytes
-left it panics iff the capacity ends before `i+8`, otherwise it reads bytes beyond the length and reports
-`errAuxArrayLen`. The model says `panicAuxArray` for all of 3..7 (defect #13, C11); the correspondence
-check accepts either outcome of the implementation there. -/
+/-- The loop of `parseAux`; `rest` is `aux[i:]`, `acc` the fields found so far in reverse order.
+All bounds are checked against the length of the data (repairs a7b362b, c1aed68, 6537bbd): no outcome is a panic. -/
 def parseAuxFuel : Nat → List Byte → List (List Byte) → Except Fault (List (List Byte))
   | 0, _, _ => .error .fuel
   | fuel + 1, rest, acc =>
@@ -268,22 +260,25 @@ def parseAuxFuel : Nat → List Byte → List (List Byte) → Except Fault (List
       let j := jumps t
       if j > 0 then
         let n := j.toNat + 3
-        if rest.length < n then .error .panicAuxSlice
+        if rest.length < n then .error .errAuxTruncated
         else parseAuxFuel fuel (rest.drop n) (rest.take n :: acc)
       else if j < 0 then
         if isZH t then
           match indexZero rest with
           | none => .error .errAuxNoZero
-          | some k => parseAuxFuel fuel (rest.drop (k + 1)) (rest.take k :: acc)
+          | some k =>
+            if k < 3 then .error .errAuxZeroInTag
+            else parseAuxFuel fuel (rest.drop (k + 1)) (rest.take k :: acc)
         else
           -- 'B'
           match v with
           | sub :: n0 :: n1 :: n2 :: n3 :: _ =>
-            let j : Int := (getU32 n0 n1 n2 n3 : Int) * jumps sub + 8
-            if j < 0 || (rest.length : Int) < j then .error .errAuxArrayLen
-            else if j == 0 then .error .hangAuxArray
-            else parseAuxFuel fuel (rest.drop j.toNat) (rest.take j.toNat :: acc)
-          | _ => .error .panicAuxArray
+            if !isElemType sub then .error .errAuxArrayElem
+            else
+              let j : Int := (getU32 n0 n1 n2 n3 : Int) * jumps sub + 8
+              if j < 0 || (rest.length : Int) < j then .error .errAuxArrayLen
+              else parseAuxFuel fuel (rest.drop j.toNat) (rest.take j.toNat :: acc)
+          | _ => .error .errAuxArrayHdr
       else .error .errAuxType
     | _ => .ok acc.reverse     -- i+2 < len(aux) fails: up to two trailing bytes are ignored
 
@@ -308,7 +303,12 @@ def linkRefs (nrefs : Nat) (refID nextRefID : Int) (r : Record) : Except Fault R
       else .ok { r with ref := ref, mateRef := some nextRefID.toNat }
     else .ok { r with ref := ref, mateRef := none }
 
-/-- `bam.(*Reader).Read` on the record buffer `body` (the `size` bytes after the length prefix) -/
+/-- the `done:` label of Read: the buffer's sticky error first (repair 1ddc343), then the reference links -/
+def finish (nrefs : Nat) (refID nextRefID : Int) (b : Buf) (r : Record) : Except Fault Record :=
+  if b.err then .error .errUnexpectedEOF else linkRefs nrefs refID nextRefID r
+
+/-- `bam.(*Reader).Read` on the record buffer `body` (the `size` bytes after the length prefix).  The name-length,
+sequence-length and aux errors are returned before the buffer's own error is looked at, as in the code. -/
 def decodeBody (om : Omit) (nrefs : Nat) (body : List Byte) : Except Fault Record :=
   let b : Buf := ⟨body, false⟩
   let (refID, b) := b.readI32
@@ -332,7 +332,7 @@ def decodeBody (om : Omit) (nrefs : Nat) (body : List Byte) : Except Fault Recor
         flags := BitVec.ofNat 16 flags, mateRef := none, matePos := matePos, tempLen := tempLen,
         seqLen := 0, seq := [], qual := none, aux := [] }
     match om with
-    | .all => linkRefs nrefs refID nextRefID rec0
+    | .all => finish nrefs refID nextRefID b rec0
     | _ =>
       if lSeq < 0 then .error .errSeqLen
       else
@@ -341,12 +341,12 @@ def decodeBody (om : Omit) (nrefs : Nat) (body : List Byte) : Except Fault Recor
         let (qual, b) := b.unsafeBytes l
         let rec1 : Record := { rec0 with seqLen := l, seq := seq, qual := some qual }
         match om with
-        | .aux => linkRefs nrefs refID nextRefID rec1
+        | .aux => finish nrefs refID nextRefID b rec1
         | _ =>
-          let (auxb, _) := b.unsafeBytes b.data.length
+          let (auxb, b) := b.unsafeBytes b.data.length
           match parseAux auxb with
           | .error f => .error f
-          | .ok aux => linkRefs nrefs refID nextRefID { rec1 with aux := aux }
+          | .ok aux => finish nrefs refID nextRefID b { rec1 with aux := aux }
 
 /-! ### Reader: the length-prefixed stream -/
 
